@@ -76,40 +76,56 @@ def hexs(b):
     return "".join("%02x" % x for x in b) if b else "-"
 
 
+def rstr(r):
+    return [r.randrange(33, 127) for _ in range(r.choice([1, 2, 5, 8]))]
+
+
 def gen_sds(r):
-    w = r.choice(["dfsd", "sd", "nc"])
-    n = r.choice([1, 1, 2, 3])
+    w = r.choice(["dfsd", "sd", "sd", "nc"])
+    n = r.choice([1, 2, 2, 3, 4])
     ds = []
     unl_used = False
-    nrec = r.choice([1, 2, 3, 5])     # the netCDF data model has one record count per file
+    nrec = r.choice([1, 2, 3, 5])     # the netCDF-style calls know one record count per file
     for _ in range(n):
-        rank = r.choice([1, 1, 2, 2, 3, 4])
+        rank = r.choice([1, 1, 2, 2, 3, 3, 4])
         dims = [r.choice([1, 2, 3, 4, 5]) for _ in range(rank)]
         if w == "nc":
             nt = r.choice(NC_OK)
         else:
             nt = r.choice(list(BASES)) | r.choice([0, 0, 0, 0x4000, 0x1000])
         unl = False
-        if w == "sd" and r.random() < 0.3:
-            unl = True
+        if w == "sd" and r.random() < 0.45:
+            unl = True          # several record variables, each with its own record count
         if w == "nc" and not unl_used and r.random() < 0.3:
             unl = unl_used = True
-        if unl:
             dims[0] = nrec
         ne = 1
         for d in dims:
             ne *= d
-        ds.append({"dims": dims, "unl": unl, "nt": nt, "data": rbytes(r, ne * BASES[nt & 255])})
-    return {"kind": "sds", "w": w, "objs": ds}
+        wd = BASES[nt & 255]
+        d = {"dims": dims, "unl": unl, "nt": nt, "data": rbytes(r, ne * wd), "scales": [None] * rank, "strs": None, "range": None}
+        if w in ("dfsd", "sd") and r.random() < 0.6:
+            # dimension scales on an arbitrary subset of the dimensions (never on a record dimension)
+            for i in range(rank):
+                if r.random() < 0.5 and not (unl and i == 0):
+                    d["scales"][i] = rbytes(r, dims[i] * wd)
+        if w in ("dfsd", "sd") and r.random() < 0.4:
+            d["strs"] = (rstr(r), rstr(r) if r.random() < 0.7 else [], rstr(r) if r.random() < 0.7 else [])
+        if w in ("dfsd", "sd") and r.random() < 0.3:
+            d["range"] = (rbytes(r, wd), rbytes(r, wd))
+        ds.append(d)
+    pre = r.choice([0, 0, 1, 2]) if w != "nc" else 0
+    edits = sorted(r.sample(range(n), r.randrange(1, n + 1))) if (w == "sd" and r.random() < 0.5) else []
+    return {"kind": "sds", "w": w, "pre": pre, "edits": edits, "objs": ds}
 
 
 def gen_img(r):
-    w = r.choice(["df", "gr"])
-    n = r.choice([1, 1, 2, 3])
+    w = r.choice(["df", "gr", "gr"])
+    n = r.choice([1, 2, 2, 3, 4])
     ims = []
-    for _ in range(n):
+    for k in range(n):
         x, y = r.choice([1, 2, 3, 4, 5, 6]), r.choice([1, 2, 3, 4, 5, 6])
-        if r.random() < 0.15:
+        if r.random() < 0.1:
             x = r.choice([130, 257])    # rows longer than one RLE run
         if w == "df":
             nc = r.choice([1, 1, 3])
@@ -118,14 +134,20 @@ def gen_img(r):
             comp = r.choice([0, 1]) if nc == 1 else 0
             pal = nc == 1 and r.random() < 0.5
         else:
-            nc = r.choice([1, 1, 3, 3, 2, 4])
-            nt = r.choice([21, 21, 21, 3, 20, 4])
+            # images the older calls cannot take (no raster-image group) mixed with the ones they can, in any
+            # creation order: group refs and image refs then differ
+            if r.random() < 0.35:
+                nc, nt = r.choice([(2, 21), (4, 21), (1, 20), (3, 4), (1, 3)])
+            else:
+                nc, nt = r.choice([1, 1, 3]), 21
             il = r.choice([0, 1, 2])
             comp = r.choice([0, 0, 1, 2])
             pal = r.random() < 0.4
         ims.append({"x": x, "y": y, "nc": nc, "nt": nt, "il": il, "comp": comp, "data": rbytes(r, x * y * nc),
                     "pal": rbytes(r, 768) if pal else None})
-    return {"kind": "img", "w": w, "ril": r.choice([-1, 0, 1, 2]), "objs": ims}
+    pre = r.choice([0, 0, 1, 2])
+    edits = sorted(r.sample(range(n), r.randrange(1, n + 1))) if (w == "gr" and r.random() < 0.6) else []
+    return {"kind": "img", "w": w, "pre": pre, "edits": edits, "ril": r.choice([-1, 0, 1, 2]), "objs": ims}
 
 
 def gen_rawsds(r):
@@ -185,16 +207,41 @@ def gen_ann(r):
     return {"kind": "ann", "w": w, "objs": objs}
 
 
+def meta_tok(d):
+    hs = lambda b: hexs(b) if b else "_"
+    it = ["s%d=%s" % (i, hexs(sc)) for i, sc in enumerate(d.get("scales") or []) if sc]
+    if d.get("strs"):
+        it.append("t=%s;%s;%s" % tuple(hs(x) for x in d["strs"]))
+    if d.get("range"):
+        it.append("r=%s;%s" % (hexs(d["range"][0]), hexs(d["range"][1])))
+    return ",".join(it) or "-"
+
+
+def parse_meta(tok, rank):
+    d = {"scales": [None] * rank, "strs": None, "range": None}
+    ub = lambda h: [] if h == "_" else list(bytes.fromhex(h))
+    if tok != "-":
+        for it in tok.split(","):
+            if it[0] == "s":
+                i, h = it[1:].split("=")
+                d["scales"][int(i)] = ub(h)
+            elif it[0] == "t":
+                d["strs"] = tuple(ub(x) for x in it[2:].split(";"))
+            elif it[0] == "r":
+                d["range"] = tuple(ub(x) for x in it[2:].split(";"))
+    return d
+
+
 def emit(cid, c):
     k = c["kind"]
     if k == "sds":
-        t = ["%s sds %s %d" % (cid, c["w"], len(c["objs"]))]
+        t = ["%s sds %s %d %s %d" % (cid, c["w"], c.get("pre", 0), ",".join(map(str, c.get("edits", []))) or "-", len(c["objs"]))]
         for d in c["objs"]:
             dims = ["%s%d" % ("u" if (d["unl"] and i == 0) else "", x) for i, x in enumerate(d["dims"])]
-            t.append("%d %s %d %s" % (len(d["dims"]), " ".join(dims), d["nt"], hexs(d["data"])))
+            t.append("%d %s %d %s %s" % (len(d["dims"]), " ".join(dims), d["nt"], hexs(d["data"]), meta_tok(d)))
         return " ".join(t)
     if k == "img":
-        t = ["%s img %s %d %d" % (cid, c["w"], c["ril"], len(c["objs"]))]
+        t = ["%s img %s %d %s %d %d" % (cid, c["w"], c.get("pre", 0), ",".join(map(str, c.get("edits", []))) or "-", c["ril"], len(c["objs"]))]
         for m in c["objs"]:
             t.append("%d %d %d %d %d %d %s %s" % (m["x"], m["y"], m["nc"], m["nt"], m["il"], m["comp"], hexs(m["data"]),
                                                    hexs(m["pal"]) if m["pal"] else "-"))
@@ -211,7 +258,7 @@ def emit(cid, c):
     if k == "rawsds":
         t = ["%s rawsds %s %d" % (cid, c["form"], len(c["objs"]))]
         for d in c["objs"]:
-            t.append("%d %s %d %s" % (len(d["dims"]), " ".join(map(str, d["dims"])), d["nt"], hexs(d["data"])))
+            t.append("%d %s %d %s %s" % (len(d["dims"]), " ".join(map(str, d["dims"])), d["nt"], hexs(d["data"]), meta_tok(d)))
         return " ".join(t)
     if k == "rawimg":
         t = ["%s rawimg %s %d %d" % (cid, c["form"], c["ril"], len(c["objs"]))]
@@ -235,6 +282,8 @@ def parse_case(line):
         return t[i[0] - 1]
     if k == "sds":
         w = nx()
+        pre = int(nx())
+        ed = nx()
         n = int(nx())
         objs = []
         for _ in range(n):
@@ -248,10 +297,14 @@ def parse_case(line):
                 dims.append(int(x))
             nt = int(nx())
             h = nx()
-            objs.append({"dims": dims, "unl": unl, "nt": nt, "data": list(bytes.fromhex(h)) if h != "-" else []})
-        return cid, {"kind": "sds", "w": w, "objs": objs}
+            o = {"dims": dims, "unl": unl, "nt": nt, "data": list(bytes.fromhex(h)) if h != "-" else []}
+            o.update(parse_meta(nx(), rank))
+            objs.append(o)
+        return cid, {"kind": "sds", "w": w, "pre": pre, "edits": [int(x) for x in ed.split(",")] if ed != "-" else [], "objs": objs}
     if k == "img":
         w = nx()
+        pre = int(nx())
+        ed = nx()
         ril = int(nx())
         n = int(nx())
         objs = []
@@ -260,7 +313,7 @@ def parse_case(line):
             h, p = nx(), nx()
             objs.append({"x": x, "y": y, "nc": nc, "nt": nt, "il": il, "comp": comp,
                          "data": list(bytes.fromhex(h)) if h != "-" else [], "pal": list(bytes.fromhex(p)) if p != "-" else None})
-        return cid, {"kind": "img", "w": w, "ril": ril, "objs": objs}
+        return cid, {"kind": "img", "w": w, "pre": pre, "edits": [int(x) for x in ed.split(",")] if ed != "-" else [], "ril": ril, "objs": objs}
     if k == "pal":
         n = int(nx())
         return cid, {"kind": "pal", "objs": [list(bytes.fromhex(nx())) for _ in range(n)]}
@@ -283,7 +336,9 @@ def parse_case(line):
             dims = [int(nx()) for _ in range(rank)]
             nt = int(nx())
             h = nx()
-            objs.append({"dims": dims, "unl": False, "nt": nt, "data": list(bytes.fromhex(h)) if h != "-" else []})
+            o = {"dims": dims, "unl": False, "nt": nt, "data": list(bytes.fromhex(h)) if h != "-" else []}
+            o.update(parse_meta(nx(), rank))
+            objs.append(o)
         return cid, {"kind": "rawsds", "form": form, "objs": objs}
     if k == "rawimg":
         form = nx()
@@ -332,7 +387,7 @@ def run_cases(ctx, cases, tag):
         for cid, c in cases:
             fh.write((cid + " " + rawline[cid] if cid in rawline else emit(cid, c)) + "\n")
     rc, R = vc.run_lines(exe, ph, timeout=1500, args=[wd])
-    noise = [l for l in R if not re.match(r"^\S+ (w|rec|end|crash|dfsd|sd|sdn|nc|vg|vgi|dfr8|df24|gr|grr|dfp|dfan|an|legacy) ", l + " ")]
+    noise = [l for l in R if not re.match(r"^\S+ (w|rec|end|crash|dfsd|sd|sdn|nc|vg|vgi|dfr8|df24|gr|grr|dfp|dfan|an|legacy|dfsdmeta|sdmeta) ", l + " ")]
     Rd = by_case([l for l in R if l not in noise])
     Sd = by_case(S)
     # phase 2: the record models read the element dump of every file the library wrote
@@ -351,7 +406,7 @@ def run_cases(ctx, cases, tag):
     return Rd, Sd, Md, noise
 
 
-VIEWS = ("dfsd", "sd", "sdn", "nc", "vg", "vgi", "dfr8", "df24", "gr", "grr", "dfp", "dfan", "an")
+VIEWS = ("dfsd", "sd", "sdn", "nc", "vg", "vgi", "dfr8", "df24", "gr", "grr", "dfp", "dfan", "an", "dfsdmeta", "sdmeta")
 
 
 def observed(lines):
@@ -364,6 +419,11 @@ def compare(c, R, S):
     crash = [l for l in R if l.startswith("crash")]
     if crash:
         return ["library crashed: " + crash[0]], 0
+    if c["kind"] == "sds" and len(set(o["dims"][0] for o in c["objs"] if o["unl"])) > 1:
+        # record variables with different record counts: the netCDF-style calls (and the record-dimension Vdata)
+        # know one record count per file and present every record variable with the largest; outside the claim
+        r = [l for l in r if l.split()[0] not in ("nc", "vg")]
+        s = [l for l in s if l.split()[0] not in ("nc", "vg")]
     wfail = [l for l in R if l.startswith("w ") and re.search(r" -\d", l.split("ref=")[0])]
     # the Vgroup view cannot show the pixels of a compressed image: compare its description only
     rd = {" ".join(l.split()[:2]): l for l in r if l.startswith("vgi ") and l.endswith(" -")}
@@ -493,6 +553,9 @@ def shrinks(c):
                     for x in o2["dims"]:
                         ne *= x
                     o2["data"] = o["data"][:ne * BASES[o["nt"] & 255]]
+                    if o.get("scales") and o["scales"][j]:
+                        o2["scales"] = list(o["scales"])
+                        o2["scales"][j] = o["scales"][j][:BASES[o["nt"] & 255]]
                     d = dict(c)
                     d["objs"] = objs[:i] + [o2] + objs[i + 1:]
                     yield d
